@@ -86,7 +86,11 @@ StmtFaults == {
   <<"stray-break", "top", <<SBreak>> \o After>>, <<"stray-continue", "top", <<SContinue>> \o After>>, <<"stray-return", "top", <<SReturn(Num(1))>> \o After>>,
   <<"stray-break", "block", <<SBlock(<<T("b"), SBreak>> \o After)>> \o After>>,
   <<"stray-continue", "if-arm", <<SIf(Num(1), SBlock(<<SContinue>> \o After), None)>> \o After>>,
-  <<"stray-return", "else-arm", <<SIf(Num(0), T("t"), SBlock(<<SReturn(None)>> \o After))>> \o After>> }
+  <<"stray-return", "else-arm", <<SIf(Num(0), T("t"), SBlock(<<SReturn(None)>> \o After))>> \o After>>,
+  \* a return outside any function, inside loops: the loops pass it on, with its line
+  <<"stray-return", "while-body", <<SVar("i", Num(0)), SWhile(Bin("<", Id("i"), Num(5)), SBlock(<<Inc("i"), SPrint(Id("i")), SIf(Bin("==", Id("i"), Num(3)), SReturn(None), None)>>))>> \o After>>,
+  <<"stray-return", "for-body", <<SFor(SVar("i", Num(0)), Bin("<", Id("i"), Num(3)), Asg("i", Bin("+", Id("i"), Num(1))), SBlock(<<SPrint(Id("i")), SReturn(Id("i"))>> \o After))>> \o After>>,
+  <<"stray-return", "nested-loops", <<SWhile(Lit(VBool(TRUE)), SFor(None, None, None, SBlock(<<T("n"), SIf(Num(1), SBlock(<<SReturn(Num(2))>>), None)>> \o After)))>> \o After>> }
 
 ExprCases == UNION { { [t |-> Prelude \o ps[2], c |-> f[1] \o "@" \o ps[1], key |-> f[1] \o "@" \o ps[1]] : ps \in Positions(f[2]) } : f \in Faults }
 StmtCases == { [t |-> Prelude \o sf[3], c |-> sf[1] \o "@" \o sf[2], key |-> sf[1] \o "@" \o sf[2]] : sf \in StmtFaults }
